@@ -30,13 +30,13 @@ Join(ss, sep) == IF ss = <<>> THEN "" ELSE IF Len(ss) = 1 THEN ss[1] ELSE ss[1] 
 TermStr(t) == Join(W!ExprSeq(t), " & ")      \* injective as long as no factor expression contains " & "
 TermsStr(ts) == IF ts = <<>> THEN "{}" ELSE Join([i \in DOMAIN ts |-> TermStr(ts[i])], " + ")
 PartsStr(ps) == Join([i \in DOMAIN ps |-> TermsStr(ps[i])], " | ")
-ResStr(res) == CASE res.st = "REJECT" -> "R" [] res.st = "UNMODELLED" -> "U"
+ResStr(res) == CASE res.st = "REJECT" -> "R" [] res.st = "UNMODELLED" -> "U" [] res.shape = "tree" -> "tree#" \o W!TreeStr(res.tree)
                  [] OTHER -> res.shape \o "#" \o PartsStr(res.lhs) \o "#" \o PartsStr(res.rhs)
 
 Agree(i, r) ==
   \/ i.st = "UNMODELLED" \/ r.st = "UNMODELLED"
   \/ (i.st = "REJECT" /\ r.st = "REJECT")
-  \/ (i.st = "OK" /\ r.st = "OK" /\ i.shape = r.shape /\ i.lhs = r.lhs /\ i.rhs = r.rhs)
+  \/ (i.st = "OK" /\ r.st = "OK" /\ i.shape = r.shape /\ i.lhs = r.lhs /\ i.rhs = r.rhs /\ i.tree = r.tree)
 
 AstOf(cfg, toks) == LET m == W!SY!Run(cfg.flags, W!Rewrite(cfg, toks).toks) IN
                     IF m.err # "" THEN "R" ELSE IF m.queue = <<>> THEN "None" ELSE W!AstStr(m.queue[1])
